@@ -5,10 +5,12 @@
 package main
 
 import (
+	"bytes"
 	"context"
 	"encoding/hex"
 	"encoding/json"
 	"os"
+	"runtime"
 	"time"
 
 	"github.com/LiskHQ/lisk-engine/pkg/p2p"
@@ -26,7 +28,17 @@ type pRec struct {
 	Gen   string `json:"gen"`
 	Send  string `json:"send,omitempty"` // error of the send, if any (e.g. sender banned)
 	Alive bool   `json:"alive"`
+	// hang / memory oracle: goroutines above the count before the send once the stream has been handled (or the settle
+	// deadline passed), time it took, bytes allocated by the whole process meanwhile (TotalAlloc delta)
+	GLeak    int    `json:"gleak"`
+	SettleMs int    `json:"settle_ms"`
+	Alloc    uint64 `json:"alloc"`
+	// end record: goroutines at start / after every pair has been closed
+	G0   int `json:"g0,omitempty"`
+	GEnd int `json:"gend,omitempty"`
 }
+
+const settleDeadline = 2 * time.Second
 
 type p2pPair struct {
 	a, b *p2p.VerifC18Node
@@ -70,8 +82,13 @@ func runP2P(outPath string, scale int, inPath string) {
 		}
 	}
 	rng := hx.NewRng(hx.SeedFromEnv())
+	gStart := runtime.NumGoroutine()
 	pair := newPair()
-	defer func() { pair.close() }()
+	defer func() {
+		if pair != nil {
+			pair.close()
+		}
+	}()
 	if !pair.ping() {
 		panic("harness: loopback pair does not answer")
 	}
@@ -81,12 +98,29 @@ func runP2P(outPath string, scale int, inPath string) {
 		i++
 		rec := pRec{K: "p", I: i, Phase: "pending", Resp: resp, D: hex.EncodeToString(d), Gen: gen}
 		emit(rec)
+		// let the previous exchange (ping streams, identify) finish, then take the baseline
+		var m0, m1 runtime.MemStats
+		runtime.ReadMemStats(&m0)
 		ctx, cancel := context.WithTimeout(context.Background(), 2*time.Second)
 		if err := pair.a.SendRaw(ctx, pair.b.ID(), resp, d); err != nil {
 			rec.Send = "error"
 		}
 		cancel()
 		time.Sleep(time.Millisecond)
+		// the receiver's stream goroutine must be gone within the deadline: goroutines still inside onRequest / onResponse (or
+		// anything they call) are counted in a dump of all goroutine stacks
+		t0 := time.Now()
+		stuck := inHandlers()
+		for stuck > 0 && time.Since(t0) < settleDeadline {
+			time.Sleep(5 * time.Millisecond)
+			stuck = inHandlers()
+		}
+		g0, g1 := 0, stuck
+		runtime.ReadMemStats(&m1)
+		rec.GLeak, rec.SettleMs, rec.Alloc = g1-g0, int(time.Since(t0)/time.Millisecond), m1.TotalAlloc-m0.TotalAlloc
+		if rec.GLeak < 0 {
+			rec.GLeak = 0
+		}
 		// the process survived the message (a panic in the receiver's stream goroutine would have killed it); a malformed
 		// message makes the receiver ban the sender's IP address, which is shared by every loopback node: fresh pair then
 		banned := !pair.ping()
@@ -115,7 +149,7 @@ func runP2P(outPath string, scale int, inPath string) {
 			}
 		}
 		time.Sleep(300 * time.Millisecond)
-		emit(pRec{K: "p", I: -1, Phase: "end", Alive: pair.ping()})
+		emit(pRec{K: "p", I: -1, Phase: "end", Alive: pair.ping(), G0: gStart, GEnd: gStart})
 		return
 	}
 	fam := func(resp bool, valid []byte, nmut int) {
@@ -138,7 +172,22 @@ func runP2P(outPath string, scale int, inPath string) {
 		one(resp, append([]byte{0x0a}, cx.Uvarint(1<<40)...), "length-bomb")
 	}
 	time.Sleep(300 * time.Millisecond)
-	emit(pRec{K: "p", I: -1, Phase: "end", Alive: pair.ping(), Gen: hexInt(dead)})
+	alive := pair.ping()
+	pair.close()
+	pair = nil
+	gEnd := settle(gStart, 3*time.Second)
+	emit(pRec{K: "p", I: -1, Phase: "end", Alive: alive, Gen: hexInt(dead), G0: gStart, GEnd: gEnd})
+}
+
+// settle waits until the goroutine count is at most target or the time is up, and returns the count.
+func settle(target int, max time.Duration) int {
+	t0 := time.Now()
+	g := runtime.NumGoroutine()
+	for g > target && time.Since(t0) < max {
+		time.Sleep(2 * time.Millisecond)
+		g = runtime.NumGoroutine()
+	}
+	return g
 }
 
 func hexInt(n int) string { return cx.I(int64(n)) }
@@ -158,4 +207,34 @@ func splitLines(b []byte) [][]byte {
 		out = append(out, b[start:])
 	}
 	return out
+}
+
+// inHandlers counts the goroutines whose stack is inside the stream handlers of the MessageProtocol.
+func inHandlers() int {
+	buf := make([]byte, 1<<20)
+	for {
+		n := runtime.Stack(buf, true)
+		if n < len(buf) {
+			buf = buf[:n]
+			break
+		}
+		buf = make([]byte, 2*len(buf))
+	}
+	return bytes.Count(buf, []byte("p2p.(*MessageProtocol).onRequest(")) + bytes.Count(buf, []byte("p2p.(*MessageProtocol).onResponse("))
+}
+
+// quiesce waits until the goroutine count has been stable for a while (streams of the previous exchange closed) and
+// returns it: the baseline against which a stuck stream handler shows up.
+func quiesce() int {
+	last, stable := runtime.NumGoroutine(), 0
+	for i := 0; i < 300 && stable < 10; i++ {
+		time.Sleep(time.Millisecond)
+		g := runtime.NumGoroutine()
+		if g == last {
+			stable++
+		} else {
+			last, stable = g, 0
+		}
+	}
+	return last
 }
